@@ -104,74 +104,95 @@ def decBool (bs : Bytes) : PRes :=
   | [] => .fail 1
   | b :: r => if b = 0 then .ok (.bool false) r 1 else if b = 1 then .ok (.bool true) r 1 else .fail 1
 
-/-- `decodeUint` (destination `uint`, 64-bit platform).  Returns the value, the rest and `req`.
+/-- `decodeUint` (destination `uint`, 64-bit platform): the value and the rest.
     Big-integer mode is accepted with 4 or 8 payload bytes only (known finding `uint-5to7`:
     `encodeUint` writes 5..7 bytes for values in [2^32, 2^56)). -/
-def decodeUint (bs : Bytes) : Option (Nat × Bytes) × Nat :=
+def decodeUintV (bs : Bytes) : Option (Nat × Bytes) :=
   match bs with
-  | [] => (none, 1)
+  | [] => none
   | pfx :: r =>
-    let mode := pfx.toNat % 4
-    if mode = 0 then (some (pfx.toNat / 4, r), 1)
-    else if mode = 1 then
+    if pfx.toNat % 4 = 0 then some (pfx.toNat / 4, r)
+    else if pfx.toNat % 4 = 1 then
       match r with
-      | [] => (none, 1)
+      | [] => none
       | buf :: r' =>
         let value := (pfx.toNat + 256 * buf.toNat) / 4          -- LE16([prefix, buf]) >> 2
-        if value ≤ 63 ∨ value > 32767 then (none, 1) else (some (value, r'), 1)
-    else if mode = 2 then
+        if value ≤ 63 ∨ value > 32767 then none else some (value, r')
+    else if pfx.toNat % 4 = 2 then
       match readFull 3 r with
-      | none => (none, 3)
+      | none => none
       | some (buf, r') =>
         let value := natOfLE (pfx :: buf) / 4                    -- LE32(prefix ++ buf) >> 2
-        if value ≤ 16383 ∨ value > 1073741823 then (none, 3) else (some (value, r'), 3)
+        if value ≤ 16383 ∨ value > 1073741823 then none else some (value, r')
     else
       let byteLen := pfx.toNat / 4 + 4
-      if byteLen ≠ 4 ∧ byteLen ≠ 8 then (none, 1)                 -- ErrCompactUintPrefixUnknown
+      if byteLen ≠ 4 ∧ byteLen ≠ 8 then none                     -- ErrCompactUintPrefixUnknown
       else
         match readFull byteLen r with
-        | none => (none, byteLen)
+        | none => none
         | some (buf, r') =>
           let value := natOfLE buf                                -- LE32(buf) / LE64(buf)
           if byteLen = 4 then
-            if value ≤ 1073741823 then (none, byteLen) else (some (value, r'), byteLen)
+            if value ≤ 1073741823 then none else some (value, r')
           else
-            if value ≤ 72057594037927935 then (none, byteLen)    -- maxUint64>>8
-            else (some (value, r'), byteLen)
+            if value ≤ 72057594037927935 then none               -- maxUint64>>8
+            else some (value, r')
+
+/-- the largest buffer `decodeUint` allocates on this input (it depends on the prefix only) -/
+def decodeUintReq (bs : Bytes) : Nat :=
+  match bs with
+  | [] => 1
+  | pfx :: _ =>
+    if pfx.toNat % 4 = 2 then 3
+    else if pfx.toNat % 4 = 3 then
+      (if pfx.toNat / 4 + 4 ≠ 4 ∧ pfx.toNat / 4 + 4 ≠ 8 then 1 else pfx.toNat / 4 + 4)
+    else 1
+
+def decodeUint (bs : Bytes) : Option (Nat × Bytes) × Nat := (decodeUintV bs, decodeUintReq bs)
 
 def decCompact (bs : Bytes) : PRes :=
-  match decodeUint bs with
-  | (none, q) => .fail q
-  | (some (n, r), q) => .ok (.nat n) r q
+  match decodeUintV bs with
+  | none => .fail (decodeUintReq bs)
+  | some (n, r) => .ok (.nat n) r (decodeUintReq bs)
 
-/-- `decodeBigInt` with `decodeSmallInt` -/
-def decBig (bs : Bytes) : PRes :=
+/-- `decodeBigInt` with `decodeSmallInt`: the value and the rest -/
+def decBigV (bs : Bytes) : Option (Nat × Bytes) :=
   match bs with
-  | [] => .fail 1
+  | [] => none
   | b :: r =>
-    let mode := b.toNat % 4
-    if mode = 0 then .ok (.nat (b.toNat / 4)) r 1
-    else if mode = 1 then
+    if b.toNat % 4 = 0 then some (b.toNat / 4, r)
+    else if b.toNat % 4 = 1 then
       match r with
-      | [] => .fail 1
+      | [] => none
       | buf :: r' =>
         let out := (b.toNat + 256 * buf.toNat) / 4
-        if out ≤ 63 then .fail 1 else .ok (.nat out) r' 1
-    else if mode = 2 then
+        if out ≤ 63 then none else some (out, r')                 -- ErrU16OutOfRange
+    else if b.toNat % 4 = 2 then
       match readFull 3 r with
-      | none => .fail 3
+      | none => none
       | some (buf, r') =>
         let out := natOfLE (b :: buf) / 4
-        if out ≤ 16383 then .fail 3 else .ok (.nat out) r' 3
+        if out ≤ 16383 then none else some (out, r')              -- ErrU32OutOfRange
     else
       let byteLen := b.toNat / 4 + 4
       match readFull byteLen r with
-      | none => .fail byteLen
+      | none => none
       | some (buf, r') =>
-        let value := natOfLE buf
-        -- most significant byte must be non-zero, and 4 bytes only from 2^30 on
-        if buf.getLast? = some 0 ∨ value ≤ 1073741823 then .fail byteLen
-        else .ok (.nat value) r' byteLen
+        -- `buf[byteLen-1] == 0`: most significant byte must be non-zero; 4 bytes only from 2^30 on
+        if buf.getLast? = some 0 then none
+        else if byteLen = 4 ∧ natOfLE buf < 1073741824 then none
+        else some (natOfLE buf, r')
+
+def decBigReq (bs : Bytes) : Nat :=
+  match bs with
+  | [] => 1
+  | b :: _ =>
+    if b.toNat % 4 = 2 then 3 else if b.toNat % 4 = 3 then b.toNat / 4 + 4 else 1
+
+def decBig (bs : Bytes) : PRes :=
+  match decBigV bs with
+  | none => .fail (decBigReq bs)
+  | some (n, r) => .ok (.nat n) r (decBigReq bs)
 
 /-- padding of the zero-filled tail is not materialised beyond this many zeros (driver guard:
     such results are only ever shown as `ok-huge`) -/
@@ -180,9 +201,10 @@ def padCap : Nat := 2 ^ 21
 /-- `decodeBytes`: `decodeLength`, the `math.MaxUint32` guard, `make([]byte, length)`, then ONE
     `ds.Read(b)` on the `bytes.Buffer` (not `io.ReadFull`: an existing test pins this behaviour) -/
 def decBytes (bs : Bytes) : PRes :=
-  match decodeUint bs with
-  | (none, q) => .fail q
-  | (some (len, r), q) =>
+  let q := decodeUintReq bs
+  match decodeUintV bs with
+  | none => .fail q
+  | some (len, r) =>
     if len > 4294967295 then .fail q
     else if len = 0 then .ok (.bytes []) r q
     else if r.isEmpty then .fail (max q len)                       -- EOF
@@ -208,7 +230,7 @@ def decPA : Prim → Bytes → PRes
   | .str, bs => decBytes bs
 
 /-- `encodeLength` / `decodeLength` -/
-def decLen (bs : Bytes) : Option (Nat × Bytes) := (decodeUint bs).1
+def decLen (bs : Bytes) : Option (Nat × Bytes) := decodeUintV bs
 
 /-- the Go codec as a primitive codec for the structural layer -/
 def codec : Codec where
